@@ -9,6 +9,10 @@ Rules (each on every instantiation: float/double, 2-D/3-D, all eight point types
   B5  Interval::include is the componentwise hull: lower <- min(lower, other.lower), upper <- max(upper, other.upper)
   B6  enclosing box of an oriented box: half extent = sum over ALL DIM columns n of |R.col(n) * h(n)|, same centre
   B7  mean = sum over all points / size ; scale = 1 / maxCoeff(max - min) ; min/max updated with every point
+  B8  step semantics of the running extrema (E-STEP): the loop body of compute() is evaluated, as extracted, on witness states of one
+      generic coordinate - from the seed state (first point) and from ordered states with the coordinate below / on / between / above
+      the bounds - and must yield (min(mn,x), max(mx,x)); decides element-wise rewrites (if / else-if chains) that the vector-form rules
+      cannot read
 Not decided: tightness of the enclosing box; floating-point rounding."""
 import sympy as sp
 from ..tree import sx, walk, pp, strip_casts, const_value, short_fn, stmts
@@ -87,6 +91,62 @@ def run(fx, R, tier):
     check_interval(fx, R)
 
 
+
+def extrema_step(fx, f, seeds):
+    """Step semantics of the point loop of compute() on one generic coordinate, on witness states (E-STEP).
+    Returns ('holds', n) | ('violated', text) | ('undecided', reason)."""
+    from .. import mini
+    loops = [x for x in walk(f['body']) if x.get('k') in ('For', 'RangeFor')]
+    outer = [L for L in loops if not any(L is not M and any(y is L for y in walk(M.get('b'))) for M in loops)]
+    outer = [L for L in outer if 'pointSetM' in str(sx(L['b']) if False else [deep_unwrap(sx(x['e'])) for x in walk(L['b']) if x.get('k') == 'Expr'])]
+    if len(outer) != 1:
+        return ('undecided', 'point loop not found')
+    L = outer[0]
+    idx, aliases = set(), {}
+    if L['k'] == 'For':
+        init = L.get('init')
+        if not (init and init['k'] == 'Decl' and init['vars']):
+            return ('undecided', 'loop header')
+        idx.add(init['vars'][0]['name'])
+    else:
+        if deep_unwrap(sx(L['range'])) != 'points':
+            return ('undecided', 'range is not the point set')
+        aliases[L['var']['name']] = 'points'
+    MN, MX = 'this.pointSetMin_', 'this.pointSetMax_'
+
+    def seedval(field, default):
+        nd = seeds.get(field)
+        cv = const_value(nd) if nd is not None else None
+        if cv == 'inf':
+            return float('inf')
+        if cv == '-inf':
+            return float('-inf')
+        return float(cv) if isinstance(cv, (int, float)) else default
+    cases = []
+    if MN in seeds and MX in seeds:
+        smn, smx = seedval(MN, None), seedval(MX, None)
+        if smn is not None and smx is not None:
+            for x in (-5.0, 0.0, 7.0):
+                cases.append(('the first point of a set (accumulators at their seeds)', smn, smx, x))
+    for (mn, mx) in ((2.0, 4.0), (3.0, 3.0)):
+        for x in (1.0, 2.0, 3.0, 4.0, 5.0):
+            cases.append(('a later point', mn, mx, x))
+    n = 0
+    for (what, mn, mx, x) in cases:
+        env = {MN: mn, MX: mx, 'points': x}
+        st = mini.Step(deep_unwrap, index_vars=set(idx), aliases=dict(aliases))
+        try:
+            st.run(L['b'], env, ignore=('this.pointSetMean_',))
+        except mini.Unsupported as e:
+            return ('undecided', 'loop body not interpretable on scalars: %s' % e)
+        want = (min(mn, x), max(mx, x))
+        if (env[MN], env[MX]) != want:
+            return ('violated', 'for %s with coordinate %g and accumulators (min %g, max %g) the loop body leaves (min %g, max %g); the running extrema must become (min %g, max %g)' % (
+                what, x, mn, mx, env[MN], env[MX], want[0], want[1]))
+        n += 1
+    return ('holds', n)
+
+
 # ---------------------------------------------------------------------------------------------
 def check_seeds_and_stats(fx, R):
     fns = [f for f in fx.functions.values() if f['q'].startswith('romea::core::PointSetPreconditioner<') and f['name'] == 'compute']
@@ -107,13 +167,21 @@ def check_seeds_and_stats(fx, R):
             if x.get('k') == 'MCall' and x.get('m') == 'setConstant' and len(x['args']) == 1:
                 seeds[sx(x['obj'])] = x['args'][0]
         bits = None
+        step = extrema_step(fx, f, seeds)
+        if step[0] == 'holds':
+            R.holds('B8', '%s::compute:step' % cname, 'on %d witness states (seed state and ordered states, coordinate below / between / above / equal) one pass of the loop body yields (min(mn,x), max(mx,x))' % step[1],
+                    fx.rel(f['loc']), 'E-STEP')
+        elif step[0] == 'violated':
+            R.violated('B8', 'PointSetPreconditioner::compute:step', step[1] + ' [%s]' % cname, fx.rel(f['loc']), 'E-STEP')
+        else:
+            R.undecided('B8', '%s::compute:step' % cname, step[1])
         for want, field in (('max', 'this.pointSetMax_'), ('min', 'this.pointSetMin_')):
             inst = 'PointSetPreconditioner::compute:%s' % field[5:]
             tag = ' [%s]' % cname
-            if field not in accs:
+            if field not in accs and step[0] == 'undecided':
                 R.undecided('B1', inst, 'running %s accumulator on %s not found' % (want, field))
                 continue
-            op, operand = accs[field]
+            op, operand = accs.get(field, (want, 'point'))      # element-wise forms are decided by B8
             if want not in op.lower():
                 R.violated('B7', inst, '%s is updated with %s(...) - the running %simum must use %s' % (field, op, want, want), fx.rel(f['loc']), 'E-SIB')
                 continue
@@ -141,9 +209,11 @@ def check_seeds_and_stats(fx, R):
                 ok = cv == 'inf' or (isinstance(cv, (int, float)) and cv >= -lowest)
                 R.check(ok, 'B1', inst, 'running minimum is seeded with %s = %s, which is not >= every input' % (pp(seed), cv),
                         'seed %s = %s is the largest value%s' % (pp(seed), cv, tag), fx.rel(seed['loc']), 'E-INT')
-            R.check(operand == 'point', 'B7', inst + ':operand', 'accumulator is updated with %s, not with the current point' % (operand,), 'updated with every point', fx.rel(f['loc']), 'E-SIB')
+            if field in accs:
+                R.check(operand == 'point', 'B7', inst + ':operand', 'accumulator is updated with %s, not with the current point' % (operand,), 'updated with every point', fx.rel(f['loc']), 'E-SIB')
         # loop covers all points; point = points[n]
         loops = [x for x in walk(f['body']) if x.get('k') == 'For']
+        loops = [L for L in loops if not any(L is not M and any(y is L for y in walk(M.get('b'))) for M in loops)]
         okloop = False
         if len(loops) == 1:
             L = loops[0]
@@ -161,7 +231,14 @@ def check_seeds_and_stats(fx, R):
                 cond = sx(L['c'])
                 if isinstance(cond, tuple) and cond[0] == '<' and cond[2] == ('.size', 'points'):
                     okloop = True
-        R.check(okloop, 'B7', '%s::compute:loop' % cname, 'the accumulation loop does not visit points[0..size)', 'visits every point once', fx.rel(f['loc']), 'E-STATE')
+        if okloop:
+            R.holds('B7', '%s::compute:loop' % cname, 'visits every point once', fx.rel(f['loc']), 'E-STATE')
+        else:
+            start = [const_value(v.get('init')) for L in loops for v in ((L.get('init') or {}).get('vars') or [])[:1]]
+            if start and isinstance(start[0], (int, float)) and start[0] > 0:
+                R.violated('B7', '%s::compute:loop' % cname, 'the accumulation loop starts at index %s: the first points never reach the extrema / mean' % start[0], fx.rel(f['loc']), 'E-STATE')
+            else:
+                R.undecided('B7', '%s::compute:loop' % cname, 'the accumulation loop is not one of the enumerated forms over points[0..size)')
         R.check(('+=', 'this.pointSetMean_', 'point') in ex and any(m(('/=', 'this.pointSetMean_', '$D'), s, {}) and 'size' in str(s) and 'points' in str(s) for s in ex),
                 'B7', '%s::compute:mean' % cname, 'mean is not (sum of the points)/points.size(): %s' % [s for s in ex if 'pointSetMean_' in str(s)],
                 'mean = sum / size', fx.rel(f['loc']), 'E-ALG')
@@ -323,7 +400,52 @@ def check_obb(fx, R):
         elif len(r) == 1 and m(('$RED', ('$CMP', ({'.abs', '.cwiseAbs'}, ('*', 'this.rotation_', ('-', 'point', C))), H)), r[0], {}):
             R.violated('B2', '%s::isInside' % cname, 'the point is expressed with R instead of R^T: containment is tested in the wrong frame (equal only for symmetric rotations)', fx.rel(f['loc']), 'E-ORD')
         else:
-            R.undecided('B2', '%s::isInside' % cname, 'containment idiom not recognised: %s' % (r,))
+            # E-STEP: the predicate on one generic box-frame coordinate u = (R^T (p - c))_i with half extent h, on witness cells
+            from .. import mini
+            frame = [('*', (tr, 'this.rotation_'), ('-', 'point', C)) for tr in ('.transpose', '.inverse')]
+            wrong = ('*', 'this.rotation_', ('-', 'point', C))
+
+            def to_u(t):
+                t = deep_unwrap(t)
+                def rep(x):
+                    if x in frame:
+                        return 'u'
+                    if x == H:
+                        return 'h'
+                    if isinstance(x, tuple):
+                        return tuple(rep(y) for y in x)
+                    return x
+                return rep(t)
+            body_sx = str([to_u(sx(x.get('e'))) for x in walk(f['body']) if x.get('k') in ('Return',) and x.get('e') is not None] +
+                          [to_u(sx(v['init'])) for x in walk(f['body']) if x.get('k') == 'Decl' for v in x['vars'] if v.get('init') is not None])
+            if str(wrong) in str([deep_unwrap(sx(x['e'])) for x in walk(f['body']) if x.get('k') == 'Return' and x.get('e') is not None] +
+                                 [deep_unwrap(sx(v['init'])) for x in walk(f['body']) if x.get('k') == 'Decl' for v in x['vars'] if v.get('init') is not None]) and "'u'" not in body_sx:
+                R.violated('B2', '%s::isInside' % cname, 'the point is expressed with R instead of R^T: containment is tested in the wrong frame (equal only for symmetric rotations)', fx.rel(f['loc']), 'E-ORD')
+            elif "'u'" not in body_sx or "'h'" not in body_sx:
+                R.undecided('B2', '%s::isInside' % cname, 'containment idiom not recognised: %s' % (r,))
+            else:
+                bad, n_ok, why = None, 0, None
+                for h in (0.0, 1.0, 2.5):
+                    for u in (-h - 1, -h, -h / 2, 0.0, h / 2, h, h + 1):
+                        try:
+                            got = mini.Step(to_u).call(f['body'], {'u': u, 'h': h})
+                        except mini.Unsupported as e:
+                            why = str(e)
+                            break
+                        if bool(got) != (abs(u) <= h):
+                            bad = bad or (u, h, got)
+                        else:
+                            n_ok += 1
+                    if why:
+                        break
+                if why:
+                    R.undecided('B2', '%s::isInside' % cname, 'containment predicate not interpretable on scalars: %s' % why)
+                elif bad:
+                    R.violated('B2', 'OrientedBoundingBox::isInside:predicate', 'for a box-frame coordinate %g and half extent %g the predicate evaluates to %s, `|u| <= h` is %s%s [%s]' % (
+                        bad[0], bad[1], bool(bad[2]), abs(bad[0]) <= bad[1],
+                        ' (0/0 is NaN and compares false: a box with a zero extent rejects the points of its own plate, its centre included)' if bad[1] == 0 else '', cname), fx.rel(f['loc']), 'E-STEP')
+                else:
+                    R.holds('B2', '%s::isInside' % cname, 'predicate agrees with |u| <= h on %d witness cells (zero, unit and generic extents; inside, on the face, outside)' % n_ok, fx.rel(f['loc']), 'E-STEP')
         for g, want in (('getCenterPosition', C), ('getHalfWidthExtents', H)):
             gf = fx.one(f['cls'] + '::' + g)
             af = fx.one(f['cls'].replace('OrientedBoundingBox', 'AxisAlignedBoundingBox') + '::' + g)
